@@ -238,6 +238,8 @@ def _ivs(l):
 class _C12(Spec):
     pid = "C12"
     lean_module = "Starcal.Props.C12"
+    # the interval-list intersection both IntervalOccurSet.Intersection and the mixed branch go through
+    src_ties = ["Starcal.SrcTie.Intersect"]
     expected = "intersection of occurrence sets = common instants / days, whatever the representations and the operand order; reported days = days containing an instant; a day set survives the trip through its interval form; first/last day bracket"
     rule = ("stateful line protocol per zone: `zone occ <A> <B>` with A, B day sets (<=12 days) or interval lists (<=8 intervals, end points on / just before / just after local midnights and inside days, "
             "both end kinds) in 1970-2100, both operand orders answered in one line, in UTC, fixed-offset, half-hour-offset and DST zones; days adjacent to an irregular local midnight are excluded by the "
